@@ -339,21 +339,33 @@ inductive StepRes where
   | ok | empty | runtimeError | hang | crash
 deriving DecidableEq, Repr
 
+/-- search for a frame that takes the runtime error: the nearest frame with an error behaviour gets
+    the stack trace; if it refuses (`try … catch` handles thrown values only, an `except__` that was
+    used up) it is left and the search goes on further out. `none`: nobody took it. -/
+def unwindErr : Nat → Ctx → Val → Ctx × Bool
+  | 0, c, _ => (c, false)
+  | fuel + 1, c, tr =>
+    match findRecover c.frames 0 with
+    | none => (c, false)
+    | some idx =>
+      let c1 := (c.pushV tr).dropFrames idx
+      match recoverAt c1 true 0 with
+      | (c2, .error) => unwindErr fuel (popClear c2) tr
+      | (c2, _) => (c2, true)
+
+/-- the outcome of the handler search: handled (continue in the handler frame), or unhandled (the
+    stack trace is logged and the step fails); the flag is lowered either way -/
+def finishErr (m4 : M) (u : Ctx × Bool) : M × StepRes :=
+  if u.2 then ({ m4 with ctx := u.1, err := false }, .ok)
+  else ({ (({ m4 with ctx := u.1 } : M).log Diag.runtime_Stacktrace) with err := false }, .runtimeError)
+
 /-- the error-flag handling of `execute_do` after an instruction has been executed -/
 def afterInstr (m2 : M) : M × StepRes :=
   if !m2.err then ({ m2 with msgs := [] }, .ok)
   else
-    let m3 := { m2 with msgs := [] }
-    match findRecover m3.ctx.frames 0 with
-    | some idx =>
-      -- the stack trace (payload: the error messages) is handed to the nearest handler frame
-      let m4 := (m3.alloc (m2.msgs.map (fun _ => Val.other n!"msg"))).1
-      let id := m3.heap.length
-      let c5 := m4.ctx.pushV (.strace (.ref id))
-      let c6 := c5.dropFrames idx
-      let c7 := (recoverAt c6 m4.err 0).1
-      ({ m4 with ctx := c7, err := false }, .ok)
-    | none => ({ (m3.log Diag.runtime_Stacktrace) with err := false }, .runtimeError)
+    -- the stack trace (payload: the error messages) is handed to the nearest handler frame
+    let m4 := (({ m2 with msgs := [] } : M).alloc (m2.msgs.map (fun _ => Val.other n!"msg"))).1
+    finishErr m4 (unwindErr (m2.ctx.frames.length + 1) m2.ctx (.strace (.ref m2.heap.length)))
 
 /-- fetch and execute the instruction the current frame points at -/
 def fetchExec (m1 : M) : M × StepRes :=
